@@ -181,6 +181,15 @@ fn shape_case(ctx: &mut Ctx, rng: &mut Rng, i: u64) {
             ctx.count("path_values_with_non_utf8_bytes", 1);
         }
     }
+    // (the caller may have closed some of its own standard descriptors: the child then has ends to move out of the way)
+    let holes = if rng.chance(150) {
+        ctx.count("launches_with_parent_standard_descriptors_closed", 1);
+        // (a stream merged onto an inherited one needs that one to exist)
+        let mask = rng.range(1, 7) as u8 & !(if streams == 4 { 2 } else { 0 }) & !(if streams == 5 { 4 } else { 0 });
+        Some(crate::spawn::StdHoles::make(mask))
+    } else {
+        None
+    };
     let m = run::monitored(|| Popen::create(&argv, config));
     match old {
         Some(p) => std::env::set_var("PATH", p),
@@ -196,6 +205,10 @@ fn shape_case(ctx: &mut Ctx, rng: &mut Rng, i: u64) {
     ctx.count("child_side_events", child_steps as i64);
     ctx.count("exec_attempts_in_children", execs as i64);
     ctx.count("deallocations_in_children(informational)", deallocs as i64);
+    let err_text = match &m.result {
+        Some(Err(e)) => format!("{:?}", e),
+        _ => String::new(),
+    };
     let outcome = match &m.result {
         Some(Ok(_)) => "started",
         Some(Err(_)) => "failed",
@@ -205,6 +218,8 @@ fn shape_case(ctx: &mut Ctx, rng: &mut Rng, i: u64) {
     if let Some(Ok(mut p)) = m.result {
         let _ = p.wait();
     }
+    // (only now: the handle's pipe ends may sit on the low numbers, and closing them must not hit the restored descriptors)
+    drop(holes);
     let shape = format!(
         "name{} path={}({} entries, longest {} at {}) args{} cwd{} streams{} fail={:?}{} executable={}",
         name_len, use_path, ents.len(), long_len, ["first", "middle", "last"][long_pos as usize], nargs, cwd_len, streams, fail_step.map(k::name),
@@ -213,7 +228,7 @@ fn shape_case(ctx: &mut Ctx, rng: &mut Rng, i: u64) {
     if child_steps == 0 {
         ctx.inconclusive("forked child left no trace in the log (not exercised)", J::s(&shape));
     } else if execs == 0 && fail_step.is_none() && cwd.is_none() {
-        ctx.inconclusive("child never reached exec", J::s(&shape));
+        ctx.inconclusive("child never reached exec", J::s(&format!("{} {}", shape, err_text)));
     }
     if allocs > 0 {
         let frames = allocwatch::symbolised();
